@@ -505,7 +505,7 @@ func c11(c *Ctx) {
 	})
 
 	c.Rule("C11.R3", "release: a lookup result releases parked metrics and parked events independently, each by delete + exactly one goroutine that forwards once; instance data applied whenever an instance was found", 12, func(r *Rule) {
-		hi := w.Func(P, "(*CloudHandler).handleInstanceInfo")
+		hi, _ := w.FuncOrHost(P, "(*CloudHandler).handleInstanceInfo")
 		um := w.Func(P, "(*CloudHandler).updateAndDispatchMetrics")
 		ue := w.Func(P, "(*CloudHandler).updateAndDispatchEvents")
 		ui := w.Func(P, "updateInplace")
@@ -684,7 +684,7 @@ func c11(c *Ctx) {
 	c.Rule("C11.R5", "queue gauges move with the maps: hosts++ with each new map entry, hosts-- with each delete, items++ per parked event, items -= len on release", 8, func(r *Rule) {
 		pq := w.Func(P, "(*CloudHandler).prepareMetricQueue")
 		he := w.Func(P, "(*CloudHandler).handleIncomingEvent")
-		hi := w.Func(P, "(*CloudHandler).handleInstanceInfo")
+		hi, _ := w.FuncOrHost(P, "(*CloudHandler).handleInstanceInfo")
 		if pq == nil || he == nil || hi == nil {
 			r.Unresolved("prepareMetricQueue / handleIncomingEvent / handleInstanceInfo")
 			return
@@ -1438,7 +1438,7 @@ func c19(c *Ctx) {
 	})
 
 	c.Rule("C19.R5", "no event is left behind or altered on the way: parked events are released by every lookup result for their source whatever else is parked (C11.R3 on the event queue); the lexer's tag slice handed to an event is never a re-used buffer (C05.R6)", 10, func(r *Rule) {
-		hi := w.Func(P, "(*CloudHandler).handleInstanceInfo")
+		hi, _ := w.FuncOrHost(P, "(*CloudHandler).handleInstanceInfo")
 		ue := w.Func(P, "(*CloudHandler).updateAndDispatchEvents")
 		if hi == nil || ue == nil {
 			r.Unresolved("handleInstanceInfo / updateAndDispatchEvents")
@@ -1696,7 +1696,29 @@ func cloudReleaseRule(c *Ctx, r *Rule, hi *ssa.Function, fns map[string]*ssa.Fun
 			continue
 		}
 		entry := hi.Blocks[0]
-		r.Check("release:"+kind.field+":checked-on-every-result", lk.Block() == entry || pd.PostDominates(lk.Block(), entry), lk.Pos(), kind.field+" is examined for every lookup result (not only when the other queue was empty)")
+		base := 0
+		// when the handling of a lookup result is written into the loop that receives it, the region starts at the
+		// select case that received the result: conditions established before that point do not count
+		hosted := false
+		eachInstr(hi, func(in ssa.Instruction) {
+			sel, ok := in.(*ssa.Select)
+			if !ok {
+				return
+			}
+			for k, st := range sel.States {
+				if st.Dir != types.RecvOnly || !strings.HasSuffix(strings.TrimPrefix(st.Chan.Type().String(), "<-"), "gostatsd.InstanceInfo") {
+					continue
+				}
+				if _, to := selectCaseEdge(sel, k); to != nil && (to == lk.Block() || to.Dominates(lk.Block())) {
+					entry, base, hosted = to, len(condsFor(to)), true
+				}
+			}
+		})
+		okEvery := lk.Block() == entry || pd.PostDominates(lk.Block(), entry)
+		if hosted {
+			okEvery = lk.Block() == entry || (entry.Dominates(lk.Block()) && len(condsFor(lk.Block())) == base)
+		}
+		r.Check("release:"+kind.field+":checked-on-every-result", okEvery, lk.Pos(), kind.field+" is examined for every lookup result (not only when the other queue was empty)")
 		// go <fn>(ctx, info.Instance, <parked value>) together with delete
 		var gos []*ssa.Go
 		eachInstr(hi, func(in ssa.Instruction) {
@@ -1758,12 +1780,12 @@ func cloudReleaseRule(c *Ctx, r *Rule, hi *ssa.Function, fns map[string]*ssa.Fun
 			}
 			r.Check("release:"+kind.field+":deleted-with-release", len(res.Errors) == 0 && m&2 == 0, g.Pos(), fmt.Sprintf("on every path the entry is deleted and then exactly one goroutine started, or neither (exit states %b)", m))
 			dfs := factsAt(del.Block())
-			r.Check("release:"+kind.field+":guard", len(dfs) == 1 && (knownNonNil(dfs, isParked) || knownNonEmpty(dfs, isParked)), del.Pos(), "released under exactly one condition (something is parked): "+strings.Join(condStrings(del.Block()), " && "))
+			r.Check("release:"+kind.field+":guard", len(dfs)-base == 1 && (knownNonNil(dfs, isParked) || knownNonEmpty(dfs, isParked)), del.Pos(), "released under exactly one condition (something is parked): "+strings.Join(condStrings(del.Block()), " && "))
 			continue
 		}
 		r.Check("release:"+kind.field+":deleted-with-release", del != nil && del.Block() == g.Block(), g.Pos(), "the entry is deleted in the same branch that starts the goroutine")
 		// guard: non-nil / non-empty
-		r.Check("release:"+kind.field+":guard", len(fs) == 1 && (knownNonNil(fs, isParked) || knownNonEmpty(fs, isParked)), g.Pos(), "released under exactly one condition (something is parked): "+guard)
+		r.Check("release:"+kind.field+":guard", len(fs)-base == 1 && (knownNonNil(fs, isParked) || knownNonEmpty(fs, isParked)), g.Pos(), "released under exactly one condition (something is parked): "+guard)
 	}
 }
 
